@@ -114,6 +114,15 @@ func iteratesSetWithUnknowns(n *lib.Node, absScope evalgen.Scope) string {
 	return ""
 }
 
+func condBranchError(n *lib.Node, concScope evalgen.Scope) bool {
+	for _, br := range n.Kids[1:] {
+		if _, ok := evalgen.EvalNode(br, concScope); !ok {
+			return true
+		}
+	}
+	return false
+}
+
 // reportUnsound minimises the failing expression (same abstraction, same instantiation) and records it.
 func reportUnsound(cx *lib.Ctx, c *evalgen.Case, absVals, concVals map[string]cty.Value, why string) {
 	concScope := overlay(c.Scope, concVals)
@@ -126,7 +135,7 @@ func reportUnsound(cx *lib.Ctx, c *evalgen.Case, absVals, concVals map[string]ct
 			}
 			w, _, _ := checkPair(e, c.Scope, absVals, concVals)
 			return w != ""
-		})
+		}, concScope)
 	}
 	mc := &evalgen.Case{Scope: c.Scope, Node: min, Src: c.Src, Expr: c.Expr}
 	sig := "?"
@@ -142,9 +151,18 @@ func reportUnsound(cx *lib.Ctx, c *evalgen.Case, absVals, concVals map[string]ct
 	if min != nil && min.K == "cond" {
 		// the diagnostics of the branch that is not selected are dropped: an error there is invisible
 		// in the concrete run but changes the branch's (and so the result's) type
-		for _, br := range min.Kids[1:] {
-			if _, ok := evalgen.EvalNode(br, concScope); !ok {
-				key += ":unselected-branch-error"
+		if condBranchError(min, concScope) {
+			key += ":unselected-branch-error"
+		}
+	} else if min != nil {
+		// the same defect seen through an operation that is sensitive to the type of a conditional
+		// operand (e.g. == on an object vs the map it is unified to)
+		for _, k := range evalgen.SubExprs(min) {
+			for k.K == "paren" && len(k.Kids) == 1 {
+				k = k.Kids[0]
+			}
+			if k.K == "cond" && condBranchError(k, concScope) {
+				key += ":operand:cond:unselected-branch-error"
 				break
 			}
 		}
@@ -173,7 +191,7 @@ func reportUnknownFromKnown(cx *lib.Ctx, c *evalgen.Case, s evalgen.Scope, v cty
 			}
 			u, _ := v.UnmarkDeep()
 			return !u.IsWhollyKnown()
-		})
+		}, s)
 	}
 	mc := &evalgen.Case{Scope: s, Node: min, Src: c.Src, Expr: c.Expr}
 	sig := "?"
